@@ -137,7 +137,7 @@ func (w *World) touched(si int) bool {
 
 // checkFailures evaluates C07 on every quorum/async call of the run.
 func (w *World) checkFailures() {
-	ns := w.net.Stats
+	ns := w.net.Snapshot()
 	for _, c := range w.calls[1:] {
 		if c == nil || c.InvokeSeq == 0 || (c.Info.Kind != "qc" && c.Info.Kind != "async") {
 			continue
